@@ -465,7 +465,7 @@ func (w *c04World) readStarts() []c04Start {
 	return res
 }
 
-func b01(b bool) int {
+func c04B01(b bool) int {
 	if b {
 		return 1
 	}
@@ -498,7 +498,7 @@ func (w *c04World) taskLine(s c04Snap, qn int) string {
 		}
 	}
 	return fmt.Sprintf("task %d q=%d hook=%d type=%d af=%d bt=%d grp=%d eos=%d ctxs=%s", w.tasks.Id(s.id), qn, h.Num, ty,
-		b01(af), bt, grp, b01(eos), s.ctxs)
+		c04B01(af), bt, grp, c04B01(eos), s.ctxs)
 }
 
 // arrived waits until the queue has grown and declares the new tail task to the model with the
@@ -519,8 +519,8 @@ func (w *c04World) arrived(h c04Hook, before int, af bool, group int, bt int, bn
 	bnum := w.binds.Id(bname)
 	w.imu.Unlock()
 	line := fmt.Sprintf("task %d q=%d hook=%d type=0 af=%d bt=%d grp=%d eos=%d ctxs=%d:%d:%d", w.tasks.Id(nt.id), h.Queue, h.Num,
-		b01(af), bt, group, b01(bt != 2), bnum, ctxType, group)
-	w.c.Op(line, fmt.Sprintf("af=%d grp=%d ctxs=%s queue=%s", b01(nt.af), c04GroupNum(nt.group), nt.ctxs, w.snapIds(ss)))
+		c04B01(af), bt, group, c04B01(bt != 2), bnum, ctxType, group)
+	w.c.Op(line, fmt.Sprintf("af=%d grp=%d ctxs=%s queue=%s", c04B01(nt.af), c04GroupNum(nt.group), nt.ctxs, w.snapIds(ss)))
 	return true
 }
 
@@ -594,7 +594,7 @@ func (w *c04World) begin(qn int) string {
 	for i := len(unknown) - 1; i >= 0; i-- {
 		s := unknown[i]
 		w.known[s.id] = true
-		w.c.Op(w.taskLine(s, qn)+" at=head", fmt.Sprintf("af=%d grp=%d eos=%d head", b01(s.af), c04GroupNum(s.group), b01(s.eos)))
+		w.c.Op(w.taskLine(s, qn)+" at=head", fmt.Sprintf("af=%d grp=%d eos=%d head", c04B01(s.af), c04GroupNum(s.group), c04B01(s.eos)))
 	}
 	head := ent.pre[0]
 	id := w.tasks.Id(head.id)
@@ -681,7 +681,7 @@ func (w *c04World) end(qn int, mode string) string {
 		select {
 		case ret = <-rch:
 		case <-time.After(40 * time.Second):
-			w.c.Op(fmt.Sprintf("end q=%d ok=%d", qn, b01(mode == "ok")), "hang")
+			w.c.Op(fmt.Sprintf("end q=%d ok=%d", qn, c04B01(mode == "ok")), "hang")
 			return "hang"
 		}
 	}
@@ -715,14 +715,14 @@ func (w *c04World) end(qn int, mode string) string {
 		if status == "success" && x.id == run.head.id {
 			continue // the worker removes the handled task on Success
 		}
-		after = append(after, fmt.Sprintf("%d,%d,%s", w.tasks.Id(x.id), b01(x.af), x.ctxs))
+		after = append(after, fmt.Sprintf("%d,%d,%s", w.tasks.Id(x.id), c04B01(x.af), x.ctxs))
 		afterSnaps = append(afterSnaps, x)
 	}
 	afterS := "-"
 	if len(after) > 0 {
 		afterS = strings.Join(after, "|")
 	}
-	ok := b01(mode == "ok")
+	ok := c04B01(mode == "ok")
 	fc := 0
 	if run.real != nil {
 		fc = run.real.GetFailureCount()
@@ -1066,7 +1066,7 @@ func runC04(r *Run) {
 			}
 			lay := []c04Ev{{2, 0, false}}
 			for i := 0; i < x.n; i++ {
-				lay = append(lay, c04Ev{b01(x.other[i]), b01(x.af[i]), false})
+				lay = append(lay, c04Ev{c04B01(x.other[i]), c04B01(x.af[i]), false})
 			}
 			p := c04Plan{hooks: hooks, boInit: 15 * time.Millisecond, boStep: 5 * time.Millisecond, maxSteps: 20,
 				initial: map[int][]c04Ev{1: lay}}
